@@ -106,6 +106,8 @@ def calls_in(node: ast.AST, nested: bool = False):
 
 def norm(node: ast.AST) -> str:
     """Normalised source text of a node (formatting-independent), used as finding identity."""
+    if node is None:
+        return "<none>"
     try:
         return " ".join(ast.unparse(node).split())
     except Exception:  # pragma: no cover
